@@ -90,6 +90,17 @@ package packaging
 //@   property C08,C09
 //@   requires p != nil
 
+// C18: an import or version location is a path relative to the directory of the package that names it: the same text
+// (`../common`) in two manifests names two different directories. Every location of the list is resolved by its own
+// call of fetchAndCachePackage, made after the change to that package's directory, and the directories come back in
+// the order of the list.
+//@ observe-args packaging.fetchAndCachePackage
+//@ func fetchAndCachePackages
+//@   property C18
+//@   invariant 0: calls(fetchAndCachePackage) == rangeindex + 1 && len(dirs) == rangeindex + 1
+//@   iteration 0: each_location_is_resolved_in_place: lastArg("packaging.fetchAndCachePackage", 0) == src && next(dirs)[rangeindex + 1] == lastResult(fetchAndCachePackage).r0
+//@   ensures one_resolution_per_location: result1 == nil ==> len(result0) == len(urls) && calls(fetchAndCachePackage) == len(urls)
+
 // ---- C10: the manifest reader is input-facing: no nil dereference for any manifest bytes ------------------------
 //@ sweep C10 file pkg/packaging/packageinfo.go
 //@ func collectVersions
